@@ -1,8 +1,8 @@
 \* C26 quick (root module: ApiAccessTable, which EXTENDS ApiAccess and exports the decision table)
 CONSTANTS
-  Creds = {"valid", "missing", "garbage", "trailing", "leading", "nopid", "nouid"}
+  Creds = {"valid", "missing", "garbage", "trailing", "leading", "nouid"}
   Users = {"none", "valid", "garbage"}
-  Conns = {"none", "activeListed", "bothListed", "activeOther", "undesired", "otherSnap", "notSnap"}
+  Conns = {"none", "activeListed", "bothListed", "undesired", "otherSnap", "slotSide"}
 SPECIFICATION Spec
 INVARIANTS
   TypeOK
